@@ -7,6 +7,10 @@ import sqimpl, modeldrv
 
 JOBS = int(os.environ.get('VERIF_JOBS', '16'))
 MODELPARSER = os.environ.get('VERIF_IMPL_TREES', '') != '1'
+# `(dencheck)`: the model driver also evaluates every EVAL line with the compositional semantics (lean/Sq/Denote.lean) and
+# tags its answer same / nofuel / DIFF; the tags are counted here (DEN_LAST: the last compare() call) and stripped
+DENCHECK = os.environ.get('VERIF_NO_DENCHECK', '') != '1'
+DEN_LAST = {}
 _impl = None
 
 
@@ -244,12 +248,23 @@ def compare(lines, normal=None):
         # not used): a parse-time rewrite in the implementation cannot hide from an evaluation property
         if MODELPARSER and l.startswith(('EVAL ', 'SESSION ')) and '(modelparser)' not in l:
             l += ' (modelparser)'
+        if DENCHECK and l.startswith('EVAL ') and '(dencheck)' not in l:
+            l += ' (dencheck)'
         mlines.append(l)
         midx.append(i)
     mres = modeldrv.run_model_parallel(mlines, JOBS)
     mo = ['U skipped'] * len(lines)
+    den = {}
     for i, r in zip(midx, mres):
+        j = r.rfind(' ;; den=')
+        if j >= 0:
+            tag = r[j + 8:]
+            den[tag] = den.get(tag, 0) + 1
+            if tag != 'DIFF':      # a DIFF stays in the line: it is a disagreement
+                r = r[:j]
         mo[i] = r
+    DEN_LAST.clear()
+    DEN_LAST.update(den)
     diffs = []
     for i, (a, b) in enumerate(zip(io, mo)):
         if b.startswith('U '):
